@@ -104,7 +104,63 @@ def heap_of(built):
             'src_ids': [aid[id(a)] for _, a in srcs]}
 
 
+_CLAIMS = None
+CHECKED_CLAIMS = ('newarray', 'operand:self', 'storage:self', 'shallow:self')
+
+
+def claims():
+    """{function: claim} of the generated summaries (same analysis that writes lean/PMV/Gen/Summaries.lean)"""
+    global _CLAIMS
+    if _CLAIMS is None:
+        import c07_py2lean as T
+        T.scan()
+        _CLAIMS = {}
+        for f in T.FUNS:
+            sm = T.summarise(f)
+            if sm is not None:
+                _CLAIMS[f.qual] = sm[1]
+    return _CLAIMS
+
+
+def gen_request(case):
+    if case.get('how') not in ('method', 'prop'):
+        return None
+    fn = '%s.%s' % (case.get('owner'), case['name'])
+    if claims().get(fn) in CHECKED_CLAIMS:
+        return ['c07', 'gen', fn]
+    return None
+
+
+def observe_gen(case, r):
+    """what the real call returned, in the vocabulary of the generated claim (the claim itself where the call says
+    nothing about it: it raised, or there is nothing to compare)"""
+    fn = '%s.%s' % (case.get('owner'), case['name'])
+    claim = claims()[fn]
+    obs = claim
+    if r['status'] == 'ret':
+        res, me = r['result'], r['built'][0]
+        src = []
+        for i, o in enumerate(r['built']):
+            S.arrays_of(o, 'self' if i == 0 else 'arg%d' % i, src)
+        rarr = S.arrays_of(res, 'r', [])
+        sharing = any(a is b or S.shares(a, b) for _, a in rarr for _, b in src)
+        if claim == 'newarray':
+            obs = 'shares-operand-memory' if sharing else 'newarray'
+        elif claim == 'operand:self':
+            obs = 'operand:self' if res is me else 'not-the-operand'
+        elif claim == 'shallow:self':
+            obs = 'shallow:self' if isinstance(res, Qube) and not any(res is o for o in r['built']) else 'not-a-new-object'
+        elif claim == 'storage:self' and isinstance(res, np.ndarray) and res.size:
+            mine = S.arrays_of(me, 'self', [])
+            obs = 'storage:self' if any(res is b or S.shares(res, b) for _, b in mine) else 'not-operand-storage'
+    return ['gen', obs, True]
+
+
 def request(case):
+    if case.get('type') == 'seq':
+        return seq_request(case)
+    if case.get('type') == 'call' and case.get('cat') is None:
+        return gen_request(case)
     if case.get('type') != 'call' or case.get('cat') is None:
         return None
     built = []
@@ -134,6 +190,8 @@ def _adesc(a, H):
 
 def observe_call(case, r):
     """the canonical observation of the REAL call, in the vocabulary of the model's answer"""
+    if case.get('cat') is None:
+        return observe_gen(case, r)
     built = r['built']
     H = heap_of(built)
     if r['status'] != 'ret':
@@ -195,5 +253,37 @@ def _obj_at(built, root, path):
     return o
 
 
+MUTMAP = {'setitem_all': 'write', 'setitem_0': 'write', 'setitem_bool': 'write', 'iadd': 'write', 'isub': 'write',
+          'imul': 'write', 'itruediv': 'write', 'ifloordiv': 'write', 'imod': 'write', 'ior': 'write', 'iand': 'write',
+          'ixor': 'write', 'values_write': 'write', 'vals_write': 'write', 'setitem_masked': 'writeMask',
+          'mask_write': 'writeMask', 'set_units': 'setUnits', 'as_readonly': 'freeze'}
+
+
+def seq_request(case):
+    """c = src.copy(); mutate one side; the model (copyObj + runHistT, the definitions of the copy theorems) says
+    whether the complete observation of the other side is unchanged"""
+    if case['derive'] not in ('copy', '__copy__', 'deepcopy'):
+        return None
+    a = S.mk_qube(case['src'])
+    H = heap_of([a])
+    muts = []
+    for m in case['muts']:
+        k = m['m']
+        if k in MUTMAP:
+            muts.append(MUTMAP[k])
+        elif k in ('deriv_setitem', 'deriv_imul', 'deriv_values_write'):
+            muts.append(['dwrite', KEYCODE[m.get('key', 't')]])
+        elif k == 'insert_deriv':
+            muts.append(['insert', KEYCODE[m.get('key', 'n')]])
+        elif k == 'delete_deriv':
+            muts.append(['delete', KEYCODE[m.get('key', 't')]])
+        elif k == 'delete_derivs':
+            muts += [['delete', c] for c in sorted(KEYCODE.values())]
+        else:
+            return None
+    return ['c07', 'seq', case['side'] == 'src', ['muts'] + muts, NEXT, ['objs'] + H['objs'], ['arrs'] + H['arrs'],
+            H['oid'][id(a)]]
+
+
 def observe_seq(case, r):
-    return ['seq']
+    return ['same', not r['changed'] and r['status'] == 'ret']
